@@ -52,6 +52,8 @@ where
         f: F,
     ) -> B {
         let range_bytes = (to - from) * size_of::<T>();
+        #[cfg(feature = "verif")]
+        let range_bytes = rawdb::verif::crossover_adjust(range_bytes);
         if range_bytes > MMAP_CROSSOVER_BYTES {
             CompressedIoSource::<I, T, S>::new_from_parts(
                 self.base.region(),
@@ -83,6 +85,8 @@ where
         f: F,
     ) -> std::result::Result<B, E> {
         let range_bytes = (to - from) * size_of::<T>();
+        #[cfg(feature = "verif")]
+        let range_bytes = rawdb::verif::crossover_adjust(range_bytes);
         if range_bytes > MMAP_CROSSOVER_BYTES {
             CompressedIoSource::<I, T, S>::new_from_parts(
                 self.base.region(),
